@@ -51,3 +51,13 @@ def register_all(reg):
     reg("C30", "seqx", "exploration", "bounded-exhaustive generator arguments with every random answer enumerated (injected random graphs, scripted draws)",
         "Graph-colouring, Ising and scenario generators are run on every small argument combination with all random graphs on <=4 nodes, all Barabasi-Albert/shuffle answers, scripted randint/uniform vectors and every random.sample answer injected; constraints<->edges, hard/soft tables, Ising form agreement, hosting-exactly-once and removal bookkeeping are checked against a reference model.",
         "Colouring constraint graph compared up to renaming; the hard penalty only has to be one positive constant; beyond 8 soft draws a 4-pattern family is used. " + E2_NOTE, "DESIGN.md 3 C30")
+
+    reg("C06", "seqx", "exploration", "bounded-exhaustive inputs + exhaustive message scripts and random answers on the real DSA computations",
+        "All cost vectors over {0,+-1,2.5,2^31,+-2^40,+-inf} for find_optimal, find_arg_optimal, optimal_cost_value and projection (d<=3, 0-2 constraints, 5 own-cost kinds, min/max) against brute force; real DSA, A-DSA and DSA-tuto computations fed every neighbour-value combination for two rounds under every draw answer, each selected value checked against the optimal set.",
+        "Cases whose local cost is +inf + -inf are skipped and counted; handler exceptions in the DSA part are notes, not violations. " + E2_NOTE, "DESIGN.md 3 C06")
+    reg("C14", "seqx", "exploration", "bounded-exhaustive spec->API->dump->load (string / 1 file / 2-file splits) vs reference model",
+        "Every small DCOP of six product families is built through the Python API, dumped with dcop_yaml and re-loaded through every documented entry point and every legal two-file split; domains, variables, all constraint values, capacities, routes and hosting costs are compared with a model computed from the spec.",
+        "PyYAML is trusted; splits that violate the documented section order, per-agent default routes, asymmetric routes and variable cost functions (not expressible / not listed by the property) are excluded. " + E2_NOTE, "DESIGN.md 3 C14")
+    reg("C26", "seqx", "exploration", "bounded-exhaustive input enumeration vs reference model (3 layers)",
+        "All discovery states (<=5 agents, <=6 computations, replica sets <=2-3, departed <=2-3) through the real removal functions; all create_*_constraint inputs over small menus and all setup_repair-generated constraints evaluated on every binary assignment against the defining sums.",
+        "Hosting maps enumerated up to agent renaming; the pipeline layer uses dsa loads and an unstarted ResilientAgent; a single repair round. " + E2_NOTE, "DESIGN.md 3 C26")
